@@ -219,9 +219,11 @@ func VerifC01Chain() {
 	}
 	tok, uerr := Unmarshal(data)
 	if uerr != nil {
-		// blocks that declare overlapping symbols etc. cannot occur here: every block decodes
+		// a token refused when it is decoded is a token that is not accepted: that is right exactly when the
+		// chain condition does not hold (a block moved to another position may, for instance, use symbols
+		// that its new predecessors do not declare)
 		vCover("unmarshal-error")
-		vAssert(false, "C01.unmarshal")
+		vAssert(vNot(spec), "C01.accept-iff-chain")
 		return
 	}
 	a, err := tok.AuthorizerFor(WithSingularRootPublicKey(K))
